@@ -128,7 +128,10 @@ def walkRedirect (c : TCase) (which : String) : RdSt :=
          if (which == "C15" || which == "all") && (match tbl with | some (some _) => true | _ => false) then
            { s with fail := some s!"method table: {s.curMethod} after {st} must be followed, but the redirect was refused" } else s1
        | "fault" :: e :: _ =>
-         if which == "C14" || which == "all" then
+         -- C15: a redirect the table says is followed, with a Location that resolves, yields the new flow
+         if (which == "C15" || which == "all") && (match tbl, target with | some (some _), some (.ok _) => true | _, _ => false) then
+           { s with fail := some s!"method table: {s.curMethod} after {st} must be followed as {match tbl with | some (some m) => m.text | _ => "?"}, but as_new_flow failed with {e}" }
+         else if which == "C14" || which == "all" then
            (match s.lastLoc with
             | none => if e.startsWith "api:" then s1 else { s with fail := some s!"missing Location reported as {e}" }
             | some loc =>
